@@ -363,3 +363,42 @@ func TestVerifC20Regressions(t *testing.T) {
 		},
 	})
 }
+
+// C17 part 1: every sync-level generator doubles as a carrier for the cache-fingerprint oracle.
+func TestVerifC17Fingerprint(t *testing.T) {
+	vs.Run(t, "C17", func(c *vs.Case) error {
+		var err error
+		switch c.Int(8) {
+		case 0:
+			c.Class("carrier:C01")
+			err = vw.PropC01(c, compositeFactory, "composite")
+		case 1:
+			c.Class("carrier:C02")
+			err = vw.PropC02(c, compositeFactory, "composite")
+		case 2:
+			c.Class("carrier:C04")
+			err = vw.PropC04(c, compositeFactory)
+		case 3:
+			c.Class("carrier:C07")
+			err = vw.PropC07(c, compositeFactory, vw.RolloutOpts{MaxChildren: 4, Steps: 3 + c.Int(4), Deletes: true, Lag: true, Scale: true})
+		case 4:
+			c.Class("carrier:C10")
+			err = vw.PropC10(c, compositeFactory, "composite")
+		case 5:
+			c.Class("carrier:C12")
+			err = vw.PropC12(c, compositeFactory, "composite", false)
+		case 6:
+			c.Class("carrier:C13")
+			err = vw.PropC13(c, compositeFactory, "composite")
+		default:
+			c.Class("carrier:C11")
+			err = vw.PropC11(c, compositeFactory)
+		}
+		return vw.OnlyC17(err)
+	})
+}
+
+// C17 part 2 (race build): concurrent workers on distinct parents sharing informers.
+func TestVerifC17Race(t *testing.T) {
+	vs.Run(t, "C17", func(c *vs.Case) error { return vw.PropC17Race(c, compositeFactory, "composite") })
+}
